@@ -330,7 +330,7 @@ pub fn run(ctx: &mut Ctx) {
         ctx.case_done(mix(&[1, w as u64, ov as u64]), true);
         ctx.sample(json!({"op": "BinaryAdd", "width": w, "overflow_bit": ov, "pairs": n * n}));
     });
-    let total = ctx.q(240, 6000);
+    let total = ctx.q(1200, 20000);
     ctx.cases("adder_wide", total, |ctx, idx| {
         let w = [16usize, 32, 64, 128][(idx % 4) as usize];
         let n = ctx.rng.range(8, 48) as usize;
@@ -343,7 +343,7 @@ pub fn run(ctx: &mut Ctx) {
         }
         ctx.case_done(mix(&[2, idx]), true);
     });
-    let total = ctx.q(2400, 40000);
+    let total = ctx.q(8000, 100000);
     ctx.cases("mux", total, |ctx, idx| {
         mux_case(ctx);
         let salt = ctx.rng.next_u64();
@@ -392,7 +392,7 @@ pub fn run(ctx: &mut Ctx) {
         div_case(ctx, s, wa, wd, &[1u64 << wa, 1], &[1u64 << wd], &alla, &alld, "mixed_exhaustive");
         ctx.case_done(mix(&[7, wa as u64, wd as u64, s as u64]), true);
     });
-    let total = ctx.q(120, 3000);
+    let total = ctx.q(400, 8000);
     ctx.cases("div_wide", total, |ctx, idx| {
         let widths: &[usize] = if ctx.quick() { &[16, 32, 64] } else { &[16, 32, 64, 128] };
         let w = widths[(idx as usize) % widths.len()];
